@@ -5,11 +5,13 @@ import CifModel.Model.Ladder
     ladder dup <n> <k>                      dup_ustrings on n strings, k-th allocation fails (0 = none)
     ladder clone <shape…> <k>               cif_value_clone of a value of the given shape into a fresh target
     ladder insert <full 0|1> <shape…> <k>   cif_value_insert_element_at, array full or not
-    ladder set <shape…> <k>                 cif_value_set_element_at: clone into the existing element object
+    ladder set <tshape…> <shape…> <k>       cif_value_set_element_at: replace an element of shape <tshape> (built before the
+                                            window) by a clone of a value of shape <shape>
     ladder names <n> <k>                    cif_loop_get_names on a stored loop with n item names (the code as it is:
                                             getNamesPinned)
   shape tokens: S (unknown/na) | C (char) | M0 | M1 (number without / with su) | [ shape* ]
-  answer: `ld rc=<code> allocs=<n> fails=<ids> frees=<sorted ids> live=<sorted ids>` — order-insensitive on purpose:
+  answer: `ld rc=<code> allocs=<n> fails=<ids> frees=<sorted ids> live=<sorted ids> pfrees=<n>` (pfrees = number of
+  releases of blocks that existed before the call) — order-insensitive on purpose:
   the order in which a clean-up ladder releases blocks is not constrained by any property.
 -/
 namespace Driver.Fam.Ladder
@@ -47,12 +49,17 @@ where ins (x : Nat) : List Nat → List Nat
 
 def showIds (l : List Nat) : String := if l.isEmpty then "-" else ",".intercalate ((isort l).map toString)
 
-def summary (rc : Nat) (evs : List Ev) : String :=
-  let allocs := evs.filterMap (fun e => match e with | .alloc i => some i | _ => none)
-  let fails := evs.filterMap (fun e => match e with | .fail i => some i | _ => none)
-  let frees := evs.filterMap (fun e => match e with | .free i => some i | _ => none)
+/-- summary of the events of the window; ids are renumbered relative to `base` (= number of requests made before the
+    window); releases of blocks obtained before the window are only counted (`pfrees`) -/
+def summaryW (rc : Nat) (base : Nat) (evs : List Ev) : String :=
+  let allocs := evs.filterMap (fun e => match e with | .alloc i => some (i - base) | _ => none)
+  let fails := evs.filterMap (fun e => match e with | .fail i => some (i - base) | _ => none)
+  let frees := evs.filterMap (fun e => match e with | .free i => if i > base then some (i - base) else none | _ => none)
+  let pfrees := (evs.filter (fun e => match e with | .free i => i ≤ base | _ => false)).length
   let live := allocs.filter (fun i => !frees.contains i)
-  s!"ld rc={if rc == OK then "0" else "E"} allocs={allocs.length} fails={showIds fails} frees={showIds frees} live={showIds live}"
+  s!"ld rc={if rc == OK then "0" else "E"} allocs={allocs.length} fails={showIds fails} frees={showIds frees} live={showIds live} pfrees={pfrees}"
+
+def summary (rc : Nat) (evs : List Ev) : String := summaryW rc 0 evs
 
 def handle : Handler
   | ["dup", n, k] => do
@@ -85,12 +92,17 @@ def handle : Handler
           pure (summary rc st.evs)
       | _ => none
   | "set" :: rest => do
-      let (sh, r) ← parseShape (rest.length + 1) rest
+      -- the target element is built first (fault-free clone of <tshape> from the empty state); the window starts after it
+      let (tsh, r0) ← parseShape (rest.length + 1) rest
+      let (sh, r) ← parseShape (r0.length + 1) r0
       match r with
       | [k] => do
           let k ← k.toNat?
-          let (rc, _, st) := setElement k sh
-          pure (summary rc st.evs)
+          match clone 0 tsh with
+          | (none, _) => none
+          | (some old, s0) =>
+            let (rc, _, st) := setElement (if k = 0 then 0 else s0.count + k) old sh s0
+            pure (summaryW rc s0.count (st.evs.drop s0.evs.length))
       | _ => none
   | _ => none
 
